@@ -5,45 +5,125 @@ package protocol
 import (
 	"context"
 	"crypto/tls"
+	"encoding/base64"
+	"strings"
+	"time"
 
 	"github.com/hashicorp/nodeenrollment"
+	"github.com/hashicorp/nodeenrollment/registration"
+	nodetls "github.com/hashicorp/nodeenrollment/tls"
 	"github.com/hashicorp/nodeenrollment/types"
 	"github.com/hashicorp/nodeenrollment/zzverif/vf"
+	"github.com/hashicorp/nodeenrollment/zzverif/vfs"
+	"github.com/mr-tron/base58"
+	"google.golang.org/protobuf/proto"
+	"google.golang.org/protobuf/types/known/timestamppb"
 )
 
-func init() { VfHarnesses["VerifC15WriteSet"] = VerifC15WriteSet }
+func init() {
+	VfHarnesses["VerifC15WriteSet"] = VerifC15WriteSet
+	VfHarnesses["VerifC15WriteSetStubbed"] = VerifC15WriteSetStubbed
+}
 
-// C15 (reduced claim): one handshake's GetConfigForClient run writes nothing into
-// memory that existed before it started, for every length and spare capacity of
-// the application's option slice.
+// vfSpareUntouched is the natively observable form of write-set isolation for an option slice: the slots between
+// its length and its capacity still hold what they held before the handshake (nil).
+func vfSpareUntouched(opts []nodeenrollment.Option) bool {
+	full := opts[:cap(opts)]
+	ok := true
+	for i := len(opts); i < len(full); i++ {
+		ok = ok && full[i] == nil
+	}
+	return ok
+}
+
+// C15 (reduced claim, DESIGN 4/C15): one complete handshake callback with the library's own fetch and
+// certificate-generation functions behind it writes nothing into memory that existed before it started - in
+// particular not into the application's option slice nor into the listener's own copy of it - for every length
+// and spare capacity of that slice, every capacity the runtime may have given the listener's copy, and each kind
+// of handshake: a token enrollment carrying state (which appends to the options inside FetchNodeCredentials), a
+// node-led fetch, an authentication attempt, and a client that falls through to the base configuration.
 func VerifC15WriteSet() {
-	n := vf.Int("optlen", 0, 2)
-	spare := vf.Int("sparecap", 0, 2)
+	ctx := context.Background()
+	st := &vfs.Storage{}
+	t0 := vf.Now()
+	vf.ShortScenario(t0, time.Second)
+	vfs.StoreRoots(ctx, st, t0)
+	_, token, err := registration.CreateServerLedActivationToken(ctx, st, &types.ServerLedRegistrationRequest{}, nodeenrollment.WithState(vfs.State("token-state")))
+	if err != nil {
+		panic(err)
+	}
+	n := []int{0, 1, 5}[vf.Int("optlen-choice", 0, 2)] // 5: the first length whose copy the Go runtime rounds up to a larger capacity
+	spare := vf.Int("sparecap", 0, 1)
 	opts := make([]nodeenrollment.Option, n, n+spare)
 	for i := range opts {
 		opts[i] = nodeenrollment.WithNonce("app-option")
 	}
+	vf.AppendSpare(1) // whatever capacity the runtime hands out if the constructor copies the options
+	l, err := NewInterceptingListener(&InterceptingListenerConfiguration{Context: ctx, Storage: st, BaseListener: &vfs.Script{},
+		BaseTlsConfiguration: &tls.Config{}, Options: opts})
+	vf.AppendSpare(0)
+	vf.Assert("listener-built", err == nil)
+
+	var protos []string
+	switch vf.Int("handshake-kind", 0, 3) {
+	case 0, 1: // a fetch: by activation token (0) or node-led and not yet authorized (1)
+		nonce := []byte("a-node-led-registration-nonce-32")
+		info := &types.FetchNodeCredentialsInfo{CertificatePublicKeyPkix: vf.Pkix(2), CertificatePublicKeyType: types.KEYTYPE_ED25519,
+			Nonce: nonce, EncryptionPublicKeyBytes: vf.X25519Pub(0), EncryptionPublicKeyType: types.KEYTYPE_X25519,
+			NotBefore: timestamppb.New(t0.Add(-time.Hour)), NotAfter: timestamppb.New(t0.Add(time.Hour))}
+		if vf.Bool("fetch-by-token") {
+			raw, derr := base58.FastBase58Decoding(strings.TrimPrefix(token, nodeenrollment.ServerLedActivationTokenPrefix))
+			if derr != nil {
+				panic(derr)
+			}
+			info.Nonce = raw
+		}
+		bundle, _ := proto.Marshal(info)
+		reqBytes, _ := proto.Marshal(&types.FetchNodeCredentialsRequest{Bundle: bundle, BundleSignature: vf.SigBy(2, bundle)})
+		protos, _ = nodetls.BreakIntoNextProtos(nodeenrollment.FetchNodeCredsNextProtoV1Prefix, base64.RawStdEncoding.EncodeToString(reqBytes))
+	case 2: // an authentication attempt by an unregistered key
+		nonce := []byte("a-fresh-connection-nonce-32-byte")
+		reqBytes, _ := proto.Marshal(&types.GenerateServerCertificatesRequest{CertificatePublicKeyPkix: vf.Pkix(3), Nonce: nonce, NonceSignature: vf.SigBy(3, nonce)})
+		protos, _ = nodetls.BreakIntoNextProtos(nodeenrollment.AuthenticateNodeNextProtoV1Prefix, base64.RawStdEncoding.EncodeToString(reqBytes))
+	default: // not a library client
+		protos = []string{"h2"}
+	}
+	vf.FreezeHeap()
+	var ci ClientInfo
+	_, _ = l.getTlsConfigForClient(&ci)(&tls.ClientHelloInfo{SupportedProtos: protos})
+	vf.Assert("no-shared-write", vf.And(vfSpareUntouched(opts), vfSpareUntouched(l.options)))
+	vf.Reach("end")
+}
+
+// The same obligation with the storage-touching functions replaced by stubs, which keeps the run small enough to
+// let the option slice grow to 8 entries with up to 4 spare slots.
+func VerifC15WriteSetStubbed() {
+	n := vf.Int("optlen", 0, 8)
+	spare := vf.Int("sparecap", 0, 4)
+	opts := make([]nodeenrollment.Option, n, n+spare)
+	for i := range opts {
+		opts[i] = nodeenrollment.WithNonce("app-option")
+	}
+	vf.AppendSpare(2)
 	l, err := NewInterceptingListener(&InterceptingListenerConfiguration{
 		Context:              context.Background(),
 		BaseListener:         vfListener{},
 		BaseTlsConfiguration: &tls.Config{},
 		Options:              opts,
-		FetchCredsFunc: func(context.Context, nodeenrollment.Storage, *types.FetchNodeCredentialsRequest, ...nodeenrollment.Option) (*types.FetchNodeCredentialsResponse, error) {
+		FetchCredsFunc: func(ctx context.Context, st nodeenrollment.Storage, req *types.FetchNodeCredentialsRequest, opt ...nodeenrollment.Option) (*types.FetchNodeCredentialsResponse, error) {
+			_ = append(opt, nodeenrollment.WithState(nil)) // what the token path of the real function does with its options
 			return &types.FetchNodeCredentialsResponse{}, nil // "not authorized yet" canary
 		},
 		GenerateServerCertificatesFunc: func(context.Context, nodeenrollment.Storage, *types.GenerateServerCertificatesRequest, ...nodeenrollment.Option) (*types.GenerateServerCertificatesResponse, error) {
 			return nil, errStub
 		},
 	})
+	vf.AppendSpare(0)
 	vf.Assert("listener-built", err == nil)
 	vf.FreezeHeap()
 	var ci ClientInfo
 	hello := &tls.ClientHelloInfo{SupportedProtos: []string{nodeenrollment.FetchNodeCredsNextProtoV1Prefix + "00-" + vf.String("payload", 16)}}
 	_, _ = l.getTlsConfigForClient(&ci)(hello)
-	// natively observable form of the same fact: the spare slots of the application's array are untouched
-	full := opts[:cap(opts)]
-	for i := n; i < len(full); i++ {
-		vf.Assert("spare-slot-untouched", full[i] == nil)
-	}
+	vf.Assert("no-shared-write", vf.And(vfSpareUntouched(opts), vfSpareUntouched(l.options)))
 	vf.Reach("end")
 }
